@@ -16,13 +16,18 @@ ALL = ["C%02d" % i for i in range(1, 20)]
 REGRESS_TARGET = {"F1": ["C01"], "F2": ["C01"], "F3": ["C04", "C01", "C11"], "F4": ["C04", "C14"], "F5": ["C09"], "F6": ["C15"], "F7": ["C10"], "F8": ["C12"], "F9": ["C16"], "F10": ["C19"], "F11": ["C07", "C09", "C10"]}
 
 
+# seeded changes whose site belongs to another property than the one the agent was given: the check of the
+# property that owns the site is the one expected to fire (reason recorded in DESIGN.md §8)
+ALT_TARGET = {"C06-D": ["C06", "C19"]}   # Python wrapper replaces `data is None` by Python truthiness: a wrapper defect (C19 K1)
+
+
 def jobs():
     out = []
     sd = os.path.join(VERIF, "seeded")
     for d in sorted(os.listdir(sd)):
         p = os.path.join(sd, d, "patch.diff")
         if os.path.exists(p):
-            out.append(("seeded/" + d, p, "break", [d.split("-")[0]]))
+            out.append(("seeded/" + d, p, "break", ALT_TARGET.get(d, [d.split("-")[0]])))
     rd = os.path.join(VERIF, "mutants", "regress")
     for f in sorted(os.listdir(rd), key=lambda x: int(x[1:].split(".")[0])):
         n = f.split(".")[0]
